@@ -9,7 +9,7 @@ COMMON_TB = [KERNEL, TIE,
 
 DATA_IMPORTS = "Base.Cfg Model.Flags Model.Args Model.FlagsSer Model.Data Model.Consts Model.LineTable Model.LineTableSer Model.Blocks Model.CodeData Model.DataSer Gen.Cfg{TAG}"
 VIEW_IMPORTS = DATA_IMPORTS + " Spec.Lnotab Spec.Dis Model.ViewSer Proofs.C02_Statements"
-JSON_IMPORTS = DATA_IMPORTS + " Model.Json Model.JsonSer"
+JSON_IMPORTS = DATA_IMPORTS + " Model.Json Model.JsonSer Proofs.C07_Statements"
 
 PROPS = {
     "C10": {
@@ -158,6 +158,15 @@ PROPS["C12"] = {
     "rule": "histories of 9-35 interleaved API calls (from_code, to_code, normalize, to_json_data, from_json_data, poisoning of returned documents) on shared objects, with deep snapshots of every argument after every call; "
             "distinct = distinct (object, step, operation)",
     "replay_hint": "replay data.history on the named program: d = CodeData.from_code(c); doc = json.loads(json.dumps(d.to_json_data())); ...",
+}
+
+PROPS["C06"] = {
+    "imports": JSON_IMPORTS, "prelude": "Definition cfg := Cfg{TAG}.cfg.",
+    "level_text": "TODO", "level_note": "TODO", "trusted_base": COMMON_TB, "assumptions": [],
+    "rule": "histories of 1-8 (thorough 1-20) operations over {code round trip, JSON round trip, normalize} on corpus / generated objects; variants built by independent mutators "
+            "(table permutation with operand renumbering, padding with unreferenced entries, CO_NESTED toggle, redundant EXTENDED_ARG 0 prefix with jump re-targeting and rebuilt line table); distinct = distinct (object, history or variant)",
+    "replay_hint": "compile the named source; apply data.history / data.variant (harness/props/mutators.py) and compare normalize() results",
+    "claimed": False,
 }
 
 NOT_CLAIMED = {}
